@@ -9,6 +9,7 @@ import (
 	"os/exec"
 	"path/filepath"
 	"strings"
+	"sync"
 	"time"
 )
 
@@ -90,18 +91,46 @@ func NativeReplay(l *Loaded, pkgKey string, files []string, timeout time.Duratio
 	outDir := filepath.Join(tmp, "out")
 	os.MkdirAll(outDir, 0o755)
 	dir := filepath.Join(l.RepoDir, sub)
-	cmd := exec.Command(filepath.Join(GoBin, "go"), "test", "-tags", "verif", "-vet=off", "-count=1", "-overlay", ovPath,
-		"-run", "^TestVerifReplay$", "-timeout", fmt.Sprintf("%ds", int(timeout.Seconds())), ".")
-	cmd.Dir = dir
-	cmd.Env = append(GoEnv(), "VERIF_REPLAY="+strings.Join(files, ","), "VERIF_REPLAY_OUT="+outDir, "GOCACHE="+goCache())
-	var buf bytes.Buffer
-	cmd.Stdout = &buf
-	cmd.Stderr = &buf
-	cmd.Run()
-	out := buf.String()
+	// the test binary is built once; every replay file then runs in a process of its own, so that a harness which leaves
+	// a goroutine blocked for good (the deadlock detector of the synctest bubble then aborts the process) cannot take
+	// the other replays down with it
+	bin := filepath.Join(tmp, "replay.test")
+	build := exec.Command(filepath.Join(GoBin, "go"), "test", "-c", "-o", bin, "-tags", "verif", "-vet=off", "-overlay", ovPath, ".")
+	build.Dir = dir
+	build.Env = append(GoEnv(), "GOCACHE="+goCache())
+	var bbuf bytes.Buffer
+	build.Stdout = &bbuf
+	build.Stderr = &bbuf
+	berr := build.Run()
+	outs := make([]string, len(files))
+	if berr != nil {
+		for i := range outs {
+			outs[i] = "build of the replay binary failed: " + tail(bbuf.String(), 3000)
+		}
+	} else {
+		sem := make(chan struct{}, 8)
+		var wg sync.WaitGroup
+		for i, f := range files {
+			wg.Add(1)
+			go func(i int, f string) {
+				defer wg.Done()
+				sem <- struct{}{}
+				defer func() { <-sem }()
+				cmd := exec.Command(bin, "-test.run", "^TestVerifReplay$", "-test.count=1", "-test.timeout", fmt.Sprintf("%ds", int(timeout.Seconds())))
+				cmd.Dir = dir
+				cmd.Env = append(GoEnv(), "VERIF_REPLAY="+f, "VERIF_REPLAY_OUT="+outDir)
+				var buf bytes.Buffer
+				cmd.Stdout = &buf
+				cmd.Stderr = &buf
+				cmd.Run()
+				outs[i] = buf.String()
+			}(i, f)
+		}
+		wg.Wait()
+	}
 	res := map[string]*ReplayOutcome{}
-	for _, f := range files {
-		ro := &ReplayOutcome{Covered: map[string]bool{}, Output: tail(out, 3000)}
+	for i, f := range files {
+		ro := &ReplayOutcome{Covered: map[string]bool{}, Output: tail(outs[i], 3000)}
 		res[f] = ro
 		b, err := os.ReadFile(filepath.Join(outDir, filepath.Base(f)+".out"))
 		if err != nil {
